@@ -75,6 +75,38 @@ pub enum Ty {
     IoRes(Box<Ty>),
     /// `F: FnMut() -> T`: the user closure of fill_with / fill_spare_with (never a Coq value)
     Closure,
+    /// `Self` returned by a constructor of CircularBuffer (`new`, `default`): the function is run on the
+    /// memory that receives the result (a state of the right capacity whose size, start and items
+    /// are whatever that memory holds) and initialises it; as a Coq value it is `tt`
+    NewBuf,
+    /// a value of a type `R: core::ops::OneSidedRange<usize>` (nightly)  -> Unstable.osr
+    Osr,
+    /// `&mut fmt::Formatter`, `fmt::DebugList`, `&mut H` with `H: Hasher`: what is written to them is
+    /// the event log of the world (never Coq values)
+    Formatter,
+    DebugList,
+    Hasher,
+    /// the `&T` an iterator adaptor hands to its closure: as a Coq value, the element it points to
+    ElemRef,
+    /// `&CircularBuffer<M, U>` / `&Self` next to a `self` receiver: another buffer -> cbuf
+    OBuf,
+    /// a view of the array of another buffer (the term of that buffer) -> slice
+    OSlice(String),
+    /// an `Iter` over another buffer (the term of that buffer) -> iter
+    OIter(String),
+    /// `core::cmp::Ordering` -> comparison
+    Ordering,
+    /// a value of a type `I: IntoIterator<Item = T>` (or `Item = &'a T`), or what `.cloned()` makes of an
+    /// Iter: as a Coq value, the function that runs a closure on every item it yields
+    /// -> (elem -> M unit) -> M unit; the type of the items (`Elem` by value, `ElemRef`)
+    IterDriver(Box<Ty>),
+    /// `Self` returned by a method of CircularBuffer (`clone`): the memory that receives the result is a
+    /// parameter (`mem'`), the constructor the method calls runs on it (with_buf), and the buffer that
+    /// comes out is the result -> cbuf
+    RetBuf,
+    /// `MaybeUninit::<[MaybeUninit<T>; N]>::uninit().assume_init()`: an items array that holds whatever
+    /// the memory holds (never a Coq value)
+    UninitItems,
 }
 
 /// the Coq record type of a struct of the crate
@@ -88,6 +120,17 @@ pub fn rec_coq(name: &str) -> Option<&'static str> {
 }
 
 impl Ty {
+    /// the type of a result of a `&self` method when it is called on another buffer
+    pub fn owned_by(&self, o: &str) -> Res<Ty> {
+        Ok(match self {
+            Ty::Usize | Ty::Bool | Ty::Unit => self.clone(),
+            Ty::Slice => Ty::OSlice(o.to_string()),
+            Ty::Rec(n) if n == "Iter" => Ty::OIter(o.to_string()),
+            Ty::Tuple(v) => Ty::Tuple(v.iter().map(|t| t.owned_by(o)).collect::<Res<Vec<_>>>()?),
+            other => return Err(format!("a {} of another buffer", other.show())),
+        })
+    }
+
     pub fn show(&self) -> String {
         match self {
             Ty::Usize => "usize".into(),
@@ -111,6 +154,19 @@ impl Ty {
             Ty::List => "&[T] (outside the array)".into(),
             Ty::IoRes(t) => format!("Result<{}, _>", t.show()),
             Ty::Closure => "impl FnMut() -> T".into(),
+            Ty::Osr => "impl OneSidedRange<usize>".into(),
+            Ty::Formatter => "&mut fmt::Formatter".into(),
+            Ty::DebugList => "fmt::DebugList".into(),
+            Ty::Hasher => "&mut impl Hasher".into(),
+            Ty::ElemRef => "&T (yielded by an adaptor)".into(),
+            Ty::OBuf => "&CircularBuffer (another buffer)".into(),
+            Ty::OSlice(o) => format!("&[slots of {}]", o),
+            Ty::OIter(o) => format!("Iter over {}", o),
+            Ty::Ordering => "Ordering".into(),
+            Ty::IterDriver(t) => format!("impl IntoIterator<Item = {}>", t.show()),
+            Ty::NewBuf => "CircularBuffer (the value being built)".into(),
+            Ty::RetBuf => "CircularBuffer (built by a constructor the function calls)".into(),
+            Ty::UninitItems => "[MaybeUninit<T>; N] (uninitialised)".into(),
         }
     }
 
@@ -118,7 +174,7 @@ impl Ty {
         Ok(match self {
             Ty::Usize | Ty::Ref | Ty::Ptr => "Z".into(),
             Ty::Bool => "bool".into(),
-            Ty::Unit => "unit".into(),
+            Ty::Unit | Ty::NewBuf => "unit".into(),
             Ty::Elem => "elem".into(),
             Ty::Slice => "slice".into(),
             Ty::Opt(t) => format!("option {}", paren_ty(&t.coq()?)),
@@ -132,9 +188,17 @@ impl Ty {
                 None => return Err(format!("struct {} has no record in the model", n)),
             },
             Ty::Bound => "bound".into(),
+            Ty::Osr => "osr".into(),
+            Ty::ElemRef => "elem".into(),
+            Ty::OBuf | Ty::RetBuf => "cbuf".into(),
+            Ty::OSlice(_) => "slice".into(),
+            Ty::OIter(_) => "iter".into(),
+            Ty::Ordering => "comparison".into(),
+            Ty::IterDriver(_) => "(elem -> M unit) -> M unit".into(),
             Ty::List => "list elem".into(),
             Ty::IoRes(t) => t.coq()?,
-            Ty::Range | Ty::Any | Ty::Bounds | Ty::Buf | Ty::Items | Ty::Guard(_) | Ty::Closure => {
+            Ty::Range | Ty::Any | Ty::Bounds | Ty::Buf | Ty::Items | Ty::Guard(_) | Ty::Closure | Ty::UninitItems | Ty::Formatter | Ty::DebugList
+            | Ty::Hasher => {
                 return Err(format!("type {} has no Coq counterpart", self.show()))
             }
         })
